@@ -378,6 +378,15 @@ class Interp:
             return val, True
         return v, True
 
+    def class_attr_value(self, c, attr, node):
+        """A class body is executed once: every access to a class attribute sees the same object (a list of Input
+        objects written at class level is shared by all instances)."""
+        cache = self.__dict__.setdefault('_class_attr_cache', {})
+        k = (c.rel, c.name, attr)
+        if k not in cache:
+            cache[k] = self.eval_in_ns(node, self.module_ns(c.rel), c.rel)
+        return cache[k]
+
     def eval_in_ns(self, node, ns, rel):
         return self.eval(node, Scope(ns=ns, rel=rel))
 
@@ -787,7 +796,7 @@ class Interp:
                     return self.class_enum(base).member(attr)
             c, node = base.class_attr_node(attr)
             if node is not None:
-                return self.eval_in_ns(node, self.module_ns(c.rel), c.rel)
+                return self.class_attr_value(c, attr, node)
             c, m = base.find_method(attr)
             if m is not None:
                 return self.make_closure(m, Scope(ns=self.module_ns(c.rel), rel=c.rel, cls=c), c.rel)
@@ -815,7 +824,7 @@ class Interp:
                 return BoundMethod(clo, base)
             c, node = base.cls.class_attr_node(attr)
             if node is not None:
-                return self.eval_in_ns(node, self.module_ns(c.rel), c.rel)
+                return self.class_attr_value(c, attr, node)
             if attr == '__class__':
                 return base.cls
             # EnumInput.__getattr__ forwards to its enum
